@@ -158,3 +158,24 @@ func ErrorsIs(err, target error) bool {
 // MsgpUnsafeString stands in for msgp.UnsafeString, which reinterprets the slice header as a string header through
 // unsafe.Pointer; the copy has the same value.
 func MsgpUnsafeString(b []byte) string { return string(b) }
+
+// SerializedKeysMarshal / SerializedKeysUnmarshal stand in for the JSON form of keystore/v2's SerializedKeys
+// (encoding/json is reflection code). The bundle access keys are only ever read back by Unmarshal, so an opaque
+// length-prefixed form is equivalent for every caller; any buffer that is not exactly of that form is rejected.
+func SerializedKeysMarshal(k *struct{ Encryption, Signature []byte }) ([]byte, error) {
+	if len(k.Encryption) > 255 || len(k.Signature) > 255 {
+		return nil, &errorString{"serialized keys model: keys too long"}
+	}
+	out := []byte{byte(len(k.Encryption)), byte(len(k.Signature))}
+	out = append(out, k.Encryption...)
+	return append(out, k.Signature...), nil
+}
+
+func SerializedKeysUnmarshal(k *struct{ Encryption, Signature []byte }, buffer []byte) error {
+	if len(buffer) < 2 || len(buffer) != 2+int(buffer[0])+int(buffer[1]) {
+		return &errorString{"serialized keys model: malformed"}
+	}
+	k.Encryption = append([]byte{}, buffer[2:2+int(buffer[0])]...)
+	k.Signature = append([]byte{}, buffer[2+int(buffer[0]):]...)
+	return nil
+}
